@@ -213,6 +213,51 @@ def check_literals(language, dtype, extra=()):
     return len(vals), worst, bad
 
 
+_NUM = re.compile(r"[-+]?(?:\d+\.?\d*(?:[eE][-+]?\d+)?|\.\d+(?:[eE][-+]?\d+)?|inf|nan)")
+
+
+def check_initialiser_literals(language, dtype, np_dtype):
+    """The literal grid printed through an ArrayDecl initialiser (the path every table takes), stored as `np_dtype` values.
+
+    Each number of the emitted initialiser list must read back within one unit in the last place of the stored type."""
+    import ffcx.codegeneration.lnodes as L
+
+    if language == "C":
+        from ffcx.codegeneration.C.formatter import Formatter
+    else:
+        from ffcx.codegeneration.numba.formatter import Formatter
+    fmt = Formatter(dtype)
+    with np.errstate(over="ignore", under="ignore"):
+        vals = np.asarray(literal_grid(), dtype=np_dtype)
+    vals = vals[np.isfinite(vals)]
+    bad, worst, n = [], 0.0, 0
+    for shape in ((-1,), (-1, 7), (-1, 2, 7)):
+        m = (vals.size // 14) * 14
+        arr = vals[:m].reshape(shape)
+        text = fmt(L.ArrayDecl(L.Symbol("T", L.DataType.REAL), values=arr, const=True))
+        body = text[text.index("{") if language == "C" else text.index("np.array(") + 9:]
+        if language != "C":
+            body = body[:body.rindex(", dtype=")]
+        toks = _NUM.findall(re.sub(r"[\[\]{}\s;]", " ", body).replace(",", " "))
+        flat = arr.reshape(-1)
+        if len(toks) != flat.size:
+            bad.append((float(flat[0]), text[:80], f"initialiser of shape {arr.shape} has {len(toks)} numbers instead of {flat.size}"))
+            continue
+        for v, t in zip(flat, toks):
+            n += 1
+            back = float(t)
+            av = np.abs(v)
+            with np.errstate(over="ignore"):
+                unit = float(np.spacing(av))  # = math.ulp for doubles, as in cparse.ulps
+            if not math.isfinite(unit):
+                unit = float(av) - float(np.nextafter(av, np_dtype(0)))
+            u = abs(back - float(v)) / unit
+            worst = max(worst, u)
+            if u > 1.0:
+                bad.append((float(v), t, f"{u:.2f} ulp of {np.dtype(np_dtype).name}"))
+    return n, worst, bad
+
+
 # ---------------------------------------------------------------------------------------------------
 # statements and whole kernels
 # ---------------------------------------------------------------------------------------------------
@@ -488,6 +533,14 @@ def main():
             v, t, why = bad[0]
             chk.violation(f"{PID}:{language}:literal:readback", f"{language} formatter prints the double {v!r} as `{t}` which reads back {why} away "
                           f"({len(bad)} of {n} grid values are off by more than 1 ulp)", recipe=dict(kind="literal", language=language), observed=[dict(value=a, text=b, error=c) for a, b, c in bad[:30]])
+    for language, dtype, npd in (("C", "float64", np.float64), ("C", "float32", np.float32), ("numba", "float64", np.float64), ("numba", "float32", np.float32)):
+        n, worst, bad = check_initialiser_literals(language, dtype, npd)
+        cov["literals"][f"{language}:initialiser:{np.dtype(npd).name}"] = dict(values=n, worst_ulp=worst, off_by_more_than_1ulp=len(bad))
+        cov["states"] += n
+        if bad:
+            v, t, why = bad[0]
+            chk.violation(f"{PID}:{language}:literal:initialiser:{np.dtype(npd).name}", f"{language} formatter prints the {np.dtype(npd).name} table value {v!r} as `{t}`: {why} "
+                          f"({len(bad)} of {n} initialiser values are wrong)", recipe=dict(kind="literal-init", language=language, dtype=dtype), observed=[dict(value=a, text=b, error=c) for a, b, c in bad[:30]])
     samples.append(dict(tree="Sub@1[Add(x,f-)]", note="every tree is formatted, parsed back and compared structurally"))
     cov["samples"] = samples
     cov["evaluations"] = cov["states"]
